@@ -4,6 +4,7 @@ open GlueVerif.C11
 #print axioms join_terminates_flags
 #print axioms join_first_path
 #print axioms join_incompatible_iff
+#print axioms paths_iff_joinPath
 #print axioms join_1_1
 #print axioms join_1_n
 #print axioms join_n_1
